@@ -118,9 +118,13 @@ func (tok *fileToken) GetKey(ctx context.Context, keyName string) (token.Key, er
 			return nil, err
 		}
 	}
+	signer, ok := privateKey.(crypto.Signer)
+	if !ok {
+		return nil, fmt.Errorf("key \"%s\": private key of type %T cannot be used for signing", keyName, privateKey)
+	}
 	return &fileKey{
 		keyConf: keyConf,
-		signer:  privateKey.(crypto.Signer),
+		signer:  signer,
 		cert:    certBlob,
 	}, nil
 }
